@@ -972,6 +972,10 @@ func ociCase(ops []ociOp, last string, reopen bool) {
 		run.OracleFail(id, "oci-tags-call", fmt.Sprintf("Tags(last=%q): %d callbacks, err %v", last, calls, err), rep)
 	} else if !sort.StringsAreSorted(got) {
 		run.OracleFail(id, "oci-tags-sorted", fmt.Sprintf("Tags(last=%q) = %q", last, got), rep)
+	} else if reopen && strings.Join(noDigestRefs(got), "\x00") != strings.Join(noDigestRefs(want), "\x00") {
+		// a reference that is the digest string of ANOTHER blob is a caller inconsistency that a
+		// reload does not preserve (not a listing matter): such references are left out here
+		run.OracleFail(id, "oci-tags-set", fmt.Sprintf("reopened: Tags(last=%q) = %q, want %q", last, got, want), rep)
 	} else if !reopen && strings.Join(got, "\x00") != strings.Join(want, "\x00") {
 		run.OracleFail(id, "oci-tags-set", fmt.Sprintf("Tags(last=%q) = %q, want %q", last, got, want), rep)
 	} else if reopen {
@@ -984,6 +988,16 @@ func ociCase(ops []ociOp, last string, reopen bool) {
 	if len(want) > 1 {
 		run.Nontrivial("O" + e + "|" + last)
 	}
+}
+
+func noDigestRefs(ss []string) []string {
+	var out []string
+	for _, s := range ss {
+		if !strings.HasPrefix(s, "sha256:") {
+			out = append(out, s)
+		}
+	}
+	return out
 }
 
 func genOci(r *common.Rand) {
